@@ -89,6 +89,32 @@ pub mod encryption;
 pub mod fault;
 mod sidecar;
 
+/// Verification hook (cargo feature `verif`): a thread-local virtual
+/// millisecond clock for generation ids, commit timestamps and the garbage
+/// collector's sweep floor. Absent unless a thread installs it.
+#[cfg(feature = "verif")]
+pub mod verif {
+    use std::cell::Cell;
+
+    thread_local! {
+        static CLOCK: Cell<Option<u64>> = const { Cell::new(None) };
+    }
+
+    /// Installs (or removes) the virtual clock of this thread.
+    pub fn set_clock(start_ms: Option<u64>) {
+        CLOCK.with(|c| c.set(start_ms));
+    }
+
+    /// Virtual time, strictly increasing by one per call, if installed.
+    pub fn now_ms() -> Option<u64> {
+        CLOCK.with(|c| {
+            let v = c.get()?;
+            c.set(Some(v + 1));
+            Some(v)
+        })
+    }
+}
+
 pub use encryption::{EncryptedStore, EncryptedStoreBuilder, EncryptedStoreUploader};
 pub use fault::{FaultHandle, FaultKind, FaultOp, FaultRule, FaultStore};
 
